@@ -18,7 +18,7 @@ LEVEL_TEXT = ("Every program is re-evaluated under 5 (quick) / 20 (thorough) see
               "by construction, 'all orders equally wrong' is not a pass.")
 LEVEL_NOTE = "Known engine crashes on the non-clean input class can appear/disappear with order; they are listed findings."
 TECHNIQUE = "runtime metamorphic monitor (seeded textual permutations) + reference-model oracle"
-BUDGET = {"quick": 600, "thorough": 10000}
+BUDGET = {"quick": 600, "thorough": 5000}
 TIME_BUDGET = {"quick": 220, "thorough": 3300}
 CASE_TIMEOUT = 60
 WATCHDOG_FRACTION = 0.04
